@@ -762,6 +762,48 @@ class Interp:
         if short == "tensordot":
             axes = args[2] if len(args) > 2 else kwargs.get("axes")
             return tensordot(self.need_arr(a0, e), self.need_arr(args[1], e), axes, e)
+        if short == "einsum" and len(args) == 3 and isinstance(a0, str) and "->" in a0 and isinstance(args[1], Arr) and isinstance(args[2], Arr) \
+                and not [k for k in kwargs if k != "optimize"]:
+            # two operands, one contracted letter: tensordot followed by a transpose into the output order
+            spec = a0.replace(" ", "")
+            ins, out_ = spec.split("->")
+            sa, sb = ins.split(",")
+            A, B = args[1], args[2]
+
+            def letters(sub, arr):
+                """subscript string -> list of per-axis tags ('a', ..., or ('...', k) for the axes under the ellipsis)"""
+                n = explicit_axes(arr)
+                if "..." in sub:
+                    head, tail = sub.split("...")
+                    nell = n - len(head) - len(tail)
+                    if nell < 0:
+                        raise AxTypeError(f"einsum subscripts `{sub}` for an array with axes {show_axes(arr.axes)}", e)
+                    if not arr.ndim_known and tail:
+                        self.unknown("einsum with letters after an ellipsis over opaque trailing axes", e)
+                    return list(head) + [("...", k) for k in range(nell)] + list(tail)
+                if len(sub) != n or not arr.ndim_known:
+                    raise AxTypeError(f"einsum subscripts `{sub}` for an array with axes {show_axes(arr.axes)}", e)
+                return list(sub)
+            la, lb = letters(sa, A), letters(sb, B)
+            summed = [x for x in la if isinstance(x, str) and x in lb and x not in out_]
+            shared_kept = [x for x in la if isinstance(x, str) and x in lb and x in out_]
+            if len(summed) != 1 or shared_kept or len(set(x for x in la if isinstance(x, str))) != len([x for x in la if isinstance(x, str)]):
+                self.unknown(f"einsum '{spec}' is not a single-axis contraction of two operands", e)
+            res = tensordot(A, B, (la.index(summed[0]), lb.index(summed[0])), e)
+            tags = [x for x in la if x != summed[0]] + [x for x in lb if x != summed[0]]
+            # output order
+            want = []
+            if "..." in out_:
+                head, tail = out_.split("...")
+                want = list(head) + [t for t in tags if isinstance(t, tuple)] + list(tail)
+            else:
+                want = list(out_)
+            if sorted(map(str, want)) != sorted(map(str, tags)):
+                self.unknown(f"einsum '{spec}': output subscripts do not match the free axes", e)
+            perm = [tags.index(t) for t in want]
+            if not res.ndim_known and perm[len(perm) - 0:] != []:
+                pass
+            return transpose(res, perm, e) if perm != list(range(len(perm))) else res
         if short == "concatenate":
             axis = args[1] if len(args) > 1 else kwargs.get("axis", 0)
             if isinstance(a0, Arr):
